@@ -283,6 +283,15 @@ def run(ctx):
                          site_of(b, region["start"]), {"table": {str(k): v for k, v in table.items()}})
         else:
             r1.ok("join@%s" % short, "12-row decision table equals the three stated rules")
+        # the joined word starts empty for every (base, suffix) pair
+        from . import phonetic as _ph
+        has_suffix = lambda body, b=b: any(b.blocks[x]["term"]["k"] == "call" and callee_name(b.blocks[x]["term"]).endswith("Data::find_suffix") for x in body)
+        for n_, (L, name, status, why, at) in enumerate(_ph.loop_carried_strings(b, has_suffix)):
+            if status == "carried":
+                r1.violation("fresh@%s#%d" % (short, n_), "`%s` is appended to for every split point / base but %s: a joined form is the concatenation of several joins"
+                             % (name, why), site_of(b, at))
+            else:
+                r1.ok("fresh@%s#%d" % (short, n_), "`%s`: %s" % (name, why))
         # the string pushed first is the base itself, the last the suffix form
         base_src = None
         for (bb, t) in b.calls():
